@@ -14,7 +14,7 @@ LAB = ("SchedLab (stub S6): the real Scheduler and in-memory SQLite backend run 
 
 CLAIMED = {
     "C03": dict(
-        text="Every history (solver choice variables) of: run / edit inner, mid or outer task (new version) / revert / transfer all records to a fresh repository, on four workflow shapes (chain, middle task without provenance, a leaf shared by two parents, a non-leaf call shared by two shallow parents), executed with the real scheduler and file-backed SQLite under the controlled executor with a solver-chosen completion order; every task stamps its version into the result, so a stale shallow replay is visible in the returned value.",
+        text="(kernel) the real _get_call_node on the S4 session over symbolic call-node rows (unbounded task/argument tokens, distinct symbolic timestamps), solver-chosen call_subtree_task rows and registry: returns the newest matching node whose recorded task set is within the registry, else none. (histories) Every history (solver choice variables) of: run / edit inner, mid or outer task (new version) / revert / transfer all records to a fresh repository, on four workflow shapes (chain, middle task without provenance, a leaf shared by two parents, a non-leaf call shared by two shallow parents), executed with the real scheduler and file-backed SQLite under the controlled executor with a solver-chosen completion order; every task stamps its version into the result, so a stale shallow replay is visible in the returned value.",
         note="<= 4-5 steps. One listed known finding (imported call nodes lack subtree rows) is assumed away and witnessed; one defect (subtree tasks of deduplicated jobs) was fixed. Interrupted recordings are not covered (cf. C22).",
         design="3/C03",
         technique=TECH + "; edit/run/transfer histories as solver choice variables, executed natively on the real backend"),
@@ -24,7 +24,7 @@ CLAIMED = {
         design="3/C04-C30",
         technique=TECH + "; value class / position / file-system change as solver choice variables, executed natively; OS-level oracle"),
     "C05": dict(
-        text="Histories of up to 3 calls of the same task and arguments under solver-chosen contexts (none/A/B), with three ways of depending on the context (nested child, defaulted get_context argument, defaulted argument that is a task call), arranged in parallel, sequentially in one execution or in successive executions, with full or shallow validity and with or without an execution-level context, run on the real scheduler and SQLite backend: every call must return the value of its own context.",
+        text="(kernel) the real check_cache / _get_call_node context filter on the S4 session over symbolic call nodes, jobs and tags (unbounded tokens): a CSE or ULTIMATE hit carries exactly the requested context. (histories) Histories of up to 3 calls of the same task and arguments under solver-chosen contexts (none/A/B), with three ways of depending on the context (nested child, defaulted get_context argument, defaulted argument that is a task call), arranged in parallel, sequentially in one execution or in successive executions, with full or shallow validity and with or without an execution-level context, run on the real scheduler and SQLite backend: every call must return the value of its own context.",
         note="One listed known finding (a context-free call after a finished context-bearing call reuses its result) is assumed away exactly and witnessed.",
         design="3/C05",
         technique=TECH + "; call histories as solver choice variables, executed natively on the real scheduler/backend"),
@@ -120,8 +120,8 @@ CLAIMED = {
         design="3/C24",
         technique=TECH + "; command histories as solver choice variables, executed natively on the real backend; model oracle"),
     "C25": dict(
-        text="Every history of handle operations up to the bound (fork, apply call, merge, rollback, rollback through the scheduler with the handle direct / nested in arguments, re-derivation with the same or a fresh object; operands solver-chosen) is run on the real advance_handle / rollback_handle / is_valid_handle of the in-memory SQLite backend and compared after every step with the lineage model; finally the real _get_cache must replay a cached result containing a state iff the model says the state is valid.",
-        note="<= 4 (quick) / 5 (thorough) operations on one handle name.",
+        text="(kernel, inductive step) from an ARBITRARY handle graph of 4 states on the S4 session (any DAG, symbolic validity bits, other-name states) satisfying 'derived from invalid => invalid', the real rollback_handle invalidates exactly the strict descendants of the target. (histories) Every history of handle operations up to the bound (fork, apply call, merge, rollback, rollback through the scheduler with the handle direct / nested in arguments, re-derivation with the same or a fresh object; operands solver-chosen) is run on the real advance_handle / rollback_handle / is_valid_handle of the in-memory SQLite backend and compared after every step with the lineage model; finally the real _get_cache must replay a cached result containing a state iff the model says the state is valid.",
+        note="<= 4 (quick) / 5 (thorough) operations on one handle name; kernel: 4 states.",
         design="3/C25",
         technique=TECH + "; operation histories as solver choice variables, executed natively on the real backend; lineage-model oracle"),
     "C26": dict(
